@@ -107,7 +107,7 @@ def step (st : St) (toks : List String) : St × List Issue :=
         -- property: a validated expression must not hit a resolution *error* (subject with its pod present)
         let fails := ks.any fun k => ((subs.find? (·.raw == k)).map (·.status)) == some "e"
         let knownCls := ks.any fun k =>
-          let segs := ((clean k).splitOn "/")
+          let segs := ((clean k).splitOn "/").dropWhile (· == "")   -- (a leading '/' is trimmed by validation and resolution alike)
           segs == ["uid"] ∨ (segs.take 2 == ["pod", "pod"]) ∨ (segs.take 2 == ["pod", "tags"])
         let (is, known) :=
           if valid == "1" ∧ fails ∧ c.pod.isSome then
